@@ -15,7 +15,7 @@ SLAB_KIT = ["vp_nondet.c", "vp_mem.c", "vp_alloc_slab.c"]
 def add(name, harness, **kw):
     kw.setdefault("kit", KIT)
     kw.setdefault("unwind_is_violation", True)
-    kw.setdefault("timeout", 300)
+    kw.setdefault("timeout", 600)
     OBLIGATIONS.append(Obl(name, harness, **kw))
 
 
@@ -76,7 +76,7 @@ for n in range(0, 7):
     add("c.edit-import-N%d" % n, "C18/edit.c", real=EDIT_REAL, include_real=["util/vector.c"], kit=SLAB_KIT,
         defs={"VP_N": n, "VP_SLAB": max(4, n), "VP_VEC_CAP": 8}, unwind=n + 2,
         unwindset=edit_unwindset(n, (n + 1) // 2),
-        tier="quick" if n <= 3 else "thorough", timeout=300 if n <= 3 else 1800, functions=EDIT_FUNCS,
+        tier="quick" if n <= 3 else "thorough", timeout=900 if n <= 3 else 1800, functions=EDIT_FUNCS,
         desc=EDIT_DESC + " -- all inputs", bounds="record = N=%d arbitrary bytes" % n)
 # record-count slices: arbitrary bytes restricted (by assumption over the reference decode) to inputs with
 # <= K complete records, the K-th ending the input; decoder loop bound = K.  One loop iteration of
@@ -87,7 +87,7 @@ for k, ns in ((1, range(2, 33)), (2, range(4, 13))):
         quick = (k == 1 and n in EDIT_QUICK_1REC)
         add("c.edit-%drec-N%d" % (k, n), "C18/edit.c", real=EDIT_REAL, include_real=["util/vector.c"], kit=SLAB_KIT,
             defs={"VP_N": n, "VP_MAXREC": k, "VP_SLAB": max(4, n), "VP_VEC_CAP": 8}, unwind=n + 2,
-            unwindset=edit_unwindset(n, k), tier="quick" if quick else "thorough", timeout=300 if quick else 1800,
+            unwindset=edit_unwindset(n, k), tier="quick" if quick else "thorough", timeout=900 if quick else 1800,
             functions=EDIT_FUNCS,
             desc=EDIT_DESC + " -- inputs with <= %d complete record(s), the last ending the input, or a malformed record" % k,
             bounds="record = N=%d arbitrary bytes holding <= %d complete VersionEdit records" % (n, k))
@@ -168,7 +168,7 @@ def block_unwindset(n, t, slab):
     return d
 
 
-def block_obl(n, ops, ikc=0, t=2, tier="quick", timeout=300):
+def block_obl(n, ops, ikc=0, t=2, tier="quick", timeout=900):
     ops = tuple(ops) + (0,) * (3 - len(ops))
     nm = "-".join(OPNAME[o] for o in ops if o) or "init"
     emin = 11 if ikc else 3                      # smallest entry that can be valid
@@ -209,6 +209,9 @@ for ops in ALL_OPS:
     else:
         block_obl(12, ops, tier="thorough", timeout=3600)
 block_obl(11, (1,))
+# two restart points + one valid entry need 15 bytes: the restart-array scan of prev and the binary search of seek
+block_obl(15, (2, 5))
+block_obl(16, (3,))
 block_obl(12, (3,), ikc=1, t=7, tier="thorough", timeout=3600)
 for ops in ALL_OPS[1:]:
     block_obl(11, ops, tier="thorough", timeout=3600)
@@ -216,7 +219,8 @@ for ops in ALL_OPS[1:]:
 # internal-key comparator with entries that can be valid (>= 11 bytes each)
 for n in (8, 9, 10, 13, 14, 15, 16):
     for ops in ALL_OPS:
-        block_obl(n, ops, tier="thorough", timeout=3600)
+        if (n, ops) not in ((15, (2, 5)), (16, (3,))):
+            block_obl(n, ops, tier="thorough", timeout=3600)
 for n in (12, 14):
     for ops in ((1, 4, 4), (1, 4, 5), (3, 4, 5), (3, 6, 5), (2, 5, 5)):
         block_obl(n, ops, tier="thorough", timeout=3600)
@@ -245,7 +249,7 @@ for n in (0, 1, 2, 3, 5, 9):
         bounds="filter = N=%d arbitrary bytes, hash arbitrary 32-bit" % n)
 
 # ---------------------------------------------------------------- g. util/snappy.c
-for (n, out, tier, timeout) in [(n, 8, "quick", 300) for n in range(0, 9)] + \
+for (n, out, tier, timeout) in [(n, 8, "quick", 900) for n in range(0, 9)] + \
                                [(n, 16, "thorough", 3600) for n in range(2, 13)] + \
                                [(n, 32, "thorough", 7200) for n in (4, 8)]:
     add("g.snappy-decode-N%d-O%d" % (n, out), "C18/snappy.c", real=["util/snappy.c"],
@@ -281,7 +285,7 @@ def log_obl(n, calls, tier, timeout):
 for n in range(0, 7):
     log_obl(n, 1, "quick", 300)
 for n in (7, 8, 14, 15):
-    log_obl(n, 1, "quick", 300)
+    log_obl(n, 1, "quick", 900)
 for n in list(range(9, 14)) + list(range(16, 25)):
     log_obl(n, 1, "thorough", 3600)
 for n in (7, 8, 14, 15, 16, 21, 22):
